@@ -270,8 +270,104 @@ def gen_calls(rng, lat, lspec, quick, nn_only=False):
     return calls
 
 
+def gen_shift_pair_case(rng, quick=True):
+    """infinite chain (unit cell 1-3 sites) with multi-site terms of which two differ only by a shift of the operators right
+    of the switch site by whole MPS unit cells (same left operators, same switch site / operator): the bookkeeping of
+    MultiCouplingTerms (`_insert_connection`: "did we already get that exact term?") must keep them apart.  All three
+    ways to choose the switch site (`'middle_i'`, `'middle_op'`, an explicit site), terms added through
+    `add_multi_coupling_term`, `add_coupling_term` (two-site terms re-added into the merged MultiCouplingTerms) and
+    `add_multi_coupling`; the window is long enough for every term that starts in the first unit cell."""
+    from harness import c10_model as cm
+    L = rng.choice([1, 1, 2, 2, 3])
+    pool = [s for s in oc.SITE_POOL if s['cls'] in ('SpinHalfSite', 'BosonSite') and _site_dim(s) == 2]
+    spec = rng.choice(pool)
+    lspec = {'cls': 'Chain', 'Ls': [L], 'bc_MPS': 'infinite', 'bc': ['periodic']}
+    case = {'kind': 'coupling', 'lattice': lspec, 'sites': [spec], 'common': None, 'window': 2,
+            'explicit': rng.random() < 0.2, 'sort_mpo_legs': rng.random() < 0.2, 'calls': [], 'shift_pairs': True}
+    lat = cm.build_lattice(case)
+    site = lat.unit_cell[0]
+    calls = []
+    max_site = 0
+    n_pairs = rng.choice([1, 1, 2])
+    for _ in range(n_pairs):
+        i0 = rng.randrange(L)
+        n_left = rng.choice([1, 1, 2])
+        n_right = rng.choice([1, 1, 2])
+        left = [i0] + ([i0 + rng.randint(1, 2)] if n_left == 2 else [])
+        gap = rng.randint(1, 3)
+        r0 = left[-1] + gap
+        right = [r0] + ([r0 + rng.randint(1, 2)] if n_right == 2 else [])
+        n_shift = rng.choice([1, 1, 2])
+        ijkl1 = left + right
+        ijkl2 = left + [r + n_shift * L for r in right]
+        if ijkl2[-1] > 8:
+            continue
+        for _try in range(6):
+            ops = oc.pick_ops(rng, [site] * len(ijkl1))
+            if 'Id' not in ops:
+                break
+        if any(site.op_needs_JW(o) for o in ops):
+            continue
+        sw = rng.choice(['middle_i', 'middle_op', rng.randint(left[-1], r0 - 1) if r0 - 1 >= left[-1] else left[-1]])
+        cat = rng.choice([None, None, 'c0'])
+        ph = rng.random() < 0.25
+        how = rng.choice(['term', 'term', 'lattice']) if len(ijkl1) > 2 else rng.choice(['term', 'coupling_term', 'lattice'])
+        for ijkl in (ijkl1, ijkl2):
+            st = oc.rand_strength(rng, rng.random() < 0.3)
+            if how == 'term':
+                calls.append({'f': 'add_multi_coupling_term', 'strength': st, 'ijkl': ijkl, 'ops': ops,
+                              'op_string': ['Id'] * (len(ijkl) - 1), 'plus_hc': ph, 'switchLR': sw, 'category': cat})
+            elif how == 'coupling_term':
+                calls.append({'f': 'add_coupling_term', 'strength': st, 'i': ijkl[0], 'j': ijkl[1], 'op_i': ops[0],
+                              'op_j': ops[1], 'op_string': 'Id', 'plus_hc': ph, 'category': cat})
+            else:
+                # lattice version: translated over the unit cell, dx in units of the one-site lattice unit cell
+                dxs = [[k - ijkl[0]] for k in ijkl]
+                if len(ijkl) == 2:
+                    calls.append({'f': 'add_coupling', 'strength': st, 'u1': 0, 'op1': ops[0], 'u2': 0, 'op2': ops[1],
+                                  'dx': dxs[1], 'op_string': None, 'plus_hc': ph, 'category': cat})
+                else:
+                    calls.append({'f': 'add_multi_coupling', 'strength': st,
+                                  'ops': [[o, d, 0] for o, d in zip(ops, dxs)], 'plus_hc': ph,
+                                  'switchLR': sw if isinstance(sw, str) else 'middle_op', 'category': cat})
+            reach = ijkl[-1] + (L - 1 if how == 'lattice' else 0)
+            max_site = max(max_site, reach)
+    if not calls:
+        return None
+    # a genuine multi-site term: the merged container is a MultiCouplingTerms in any case
+    j0 = rng.randrange(L)
+    ijkl = [j0, j0 + 1, j0 + 1 + rng.randint(1, 2)]
+    ops = oc.pick_ops(rng, [site] * 3)
+    if not any(site.op_needs_JW(o) for o in ops):
+        calls.insert(rng.randrange(len(calls) + 1),
+                     {'f': 'add_multi_coupling_term', 'strength': oc.rand_strength(rng, False), 'ijkl': ijkl, 'ops': ops,
+                      'op_string': ['Id', 'Id'], 'plus_hc': False, 'switchLR': rng.choice(['middle_i', 'middle_op']),
+                      'category': rng.choice([None, 'c0'])})
+        max_site = max(max_site, ijkl[-1])
+    if rng.random() < 0.5:
+        good = [o for o in oc.candidate_ops(site) if oc.neutral([(site, o)])]
+        if good:
+            calls.append({'f': 'add_onsite', 'strength': oc.rand_strength(rng, False), 'u': 0, 'op': rng.choice(good),
+                          'plus_hc': False, 'category': None})
+    case['calls'] = calls
+    window = -(-(max_site + 1) // L)
+    while 2 ** (window * L) > (1100 if quick else 2100) and window > 1:
+        window -= 1
+    case['window'] = max(window, 2 if L > 1 else 3)
+    if 2 ** (case['window'] * L) > 2100:
+        case['window'] = max(1, 11 // L)
+    return case
+
+
 def gen_case(rng, quick=True):
     from harness import c10_model as cm
+    if rng.random() < 0.1:
+        try:
+            case = gen_shift_pair_case(rng, quick)
+        except Exception:  # noqa: BLE001
+            case = None
+        if case is not None:
+            return case
     max_dim = 300 if quick else 1100
     # a fifth of the cases: nearest-neighbour chains with fields (uniform or site dependent), mostly infinite with unit cells
     # of 1-3 sites: the bond operators, the MPO rebuilt from them and the bond energies are representations as well
